@@ -50,6 +50,13 @@ struct pair_t
     // per-pair generator used by the waiter task only: a task must not touch a thread_local across a yield
     // (the compiler may cache the TLS address of the worker it started on)
     rng rw{1};
+    int fac_ = 0;
+    // pika asserts (Debug flavour) that a latch is at zero when it is destroyed: pairs of the other facilities never touch
+    // theirs, and an abandoned latch pair (failure path) is never destroyed anyway
+    ~pair_t()
+    {
+        if (!latch.try_wait()) latch.count_down(1);
+    }
 };
 
 static std::atomic<std::uint64_t> g_woken{0};
